@@ -3,14 +3,16 @@ import os, sys, random, json, itertools
 from fractions import Fraction
 import vlib
 
-LEAN_TARGETS = ['CvxVerif.Props.C15', 'CvxVerif.Props.C15More']
+LEAN_TARGETS = ['CvxVerif.Props.C15', 'CvxVerif.Props.C15More', 'CvxVerif.Props.C15Arith']
 MODEL_FILES = ['CvxVerif.Model.Dense', 'CvxVerif.Proofs.Dense']
 LEVEL = 'proof'
 TRUSTED = ['hand-written reference model lean/CvxVerif/Model/Dense.lean (column-major buffer, create_indexlist, matrix_subscr, '
-           'matrix_ass_subscr, matrix_add/sub/mul_generic, transposes, size assignment), tied by this op-sequence correspondence: '
+           'matrix_ass_subscr, matrix_add/sub/mul/div/rem_generic, matrix_pow, matrix_abs, the builtins len/bool/iter/max/min/sum/in, base.emul/ediv/'
+           'emax/emin and their cvxopt.mul/div/max/min wrappers, list-of-columns construction, transposes, size assignment), tied by this op-sequence correspondence: '
            'typecode, size, full contents, exception class and object identity after every operation']
-ASSUMPTIONS = ["entries are small integers / dyadic rationals so that all arithmetic is exact in doubles; 'i' overflow and "
-               'transcendental elementwise functions are outside the model']
+ASSUMPTIONS = ["entries are small integers / dyadic rationals so that all arithmetic is exact in doubles (divisors have power-of-two moduli, exponents of ** are "
+               "small integers, abs of complex entries is taken where the modulus is rational); 'i' overflow, complex ** and the transcendental elementwise "
+               'functions are outside the model']
 
 BIG = [2**31 - 1, 2**31, 2**32, -2**32, 2**32 + 1, -2**31 - 1]
 
@@ -32,7 +34,8 @@ def show_res(r, matrix):
     return 'other:' + type(r).__name__
 def exc_tok(e):
     return {'IndexError': 'IndexError', 'TypeError': 'TypeError', 'ValueError': 'ValueError',
-            'NotImplementedError': 'NotImplemented'}.get(type(e).__name__, 'EXC:' + type(e).__name__)
+            'NotImplementedError': 'NotImplemented', 'ZeroDivisionError': 'ZeroDivision',
+            'ArithmeticError': 'Arithmetic'}.get(type(e).__name__, 'EXC:' + type(e).__name__)
 
 class Gen:
     def __init__(self, rng, matrix):
@@ -88,6 +91,7 @@ def run_sequence(cvxopt, rng, nops, lines, obs):
     names = ['a', 'b', 'c', 'e', 'f']
     def emit(line, f):
         lines.append(line)
+        if os.environ.get('VERIF_TRACE'): open(os.environ['VERIF_TRACE'], 'a').write(line + '\n')
         try: obs.append(f())
         except Exception as ex: obs.append(exc_tok(ex))
     lines.append('reset'); obs.append('ok')
@@ -103,8 +107,142 @@ def run_sequence(cvxopt, rng, nops, lines, obs):
             return v, 'n%d;%s' % ('idz'.index(tc), num_tok(v))
         nm = rng.choice(list(env))
         return env[nm], 'M' + nm
+    import builtins
+    base = cvxopt.base
+    def typed(v): return 'n%d;%s' % (2 if isinstance(v, complex) else (1 if isinstance(v, float) else 0), num_tok(v))
+    def scalar(real_only=False, pow2=True):
+        """a divisor: Python number or a fresh 1x1 matrix; magnitudes are powers of two (|.|^2 for complex) so that division is exact"""
+        kind = rng.choice(['i', 'd'] if real_only else ['i', 'd', 'z'])
+        if kind == 'i': v = rng.choice([1, 2, 4, -1, -2, 0] if pow2 else [1, 2, 3, -3, -2, 5, 0])
+        elif kind == 'd': v = rng.choice([0.5, 2.0, -4.0, 0.25, 1.0, 0.0] if pow2 else [0.5, 2.0, -2.0, 1.5, 3.0, 0.0])
+        else: v = rng.choice([1j, -1j, 1 + 1j, 1 - 1j, 2 + 0j, -2 - 2j, 0j])
+        if rng.random() < 0.35:
+            nm2 = rng.choice(names)
+            def f0(): env[nm2] = matrix([v], (1, 1), kind); return show_mat(env[nm2])
+            emit('new %s %s 1 1 %s' % (nm2, kind, num_tok(v)), f0)
+            return env[nm2], 'M' + nm2
+        return v, typed(v)
+    def pow2ok(M_):
+        """a 1x1 divisor matrix whose squared modulus is zero or a power of two: quotients by it are exact in doubles"""
+        if not isinstance(M_, matrix) or len(M_) != 1: return True
+        v = complex(M_[0]); q = Fraction(v.real) ** 2 + Fraction(v.imag) ** 2
+        return q == 0 or ((q.numerator & (q.numerator - 1)) == 0 and (q.denominator & (q.denominator - 1)) == 0)
+    def more_ops():
+        nm = rng.choice(list(env)); A = env[nm]; dst = rng.choice(names)
+        w = rng.choice(['div', 'div', 'idiv', 'rem', 'rem', 'irem', 'pow', 'abs', 'abs', 'len', 'bool', 'list', 'bmax', 'bmin', 'bsum', 'in',
+                        'elem', 'elem', 'elem', 'newcols', 'rdiv'])
+        if w in ('div', 'rem'):
+            y, ty = scalar(real_only=(w == 'rem' and rng.random() < 0.8), pow2=(w == 'div'))
+            if rng.random() < 0.12: y, ty = opd(False)                     # any matrix as divisor
+            if w == 'div' and not pow2ok(y): return
+            A = env[nm]
+            def f():
+                r = (A / y) if w == 'div' else (A % y)
+                env[dst] = r; return show_mat(r)
+            emit('%s %s M%s %s' % (w, dst, nm, ty), f)
+        elif w == 'rdiv':
+            # number / matrix and number % matrix: defined when the matrix has one entry
+            x = rng.choice([3, -7, 2.5, 1 + 2j, 8]); y, ty = scalar(pow2=True)
+            if not isinstance(y, matrix): y, ty = opd(False)
+            op = rng.choice(['div', 'rem'])
+            if op == 'div' and not pow2ok(y): return
+            def f():
+                r = (x / y) if op == 'div' else (x % y)
+                env[dst] = r; return show_mat(r)
+            emit('%s %s %s %s' % (op, dst, typed(x), ty), f)
+        elif w in ('idiv', 'irem'):
+            y, ty = scalar(real_only=(w == 'irem' and rng.random() < 0.8), pow2=(w == 'idiv'))
+            if rng.random() < 0.1: y, ty = opd(False)
+            if w == 'idiv' and isinstance(y, matrix) and not pow2ok(y): return
+            def f():
+                B = env[nm]
+                if w == 'idiv': B /= y
+                else: B %= y
+                if B is not env[nm]:
+                    env[nm] = B; return 'new ' + show_mat(B)
+                return show_mat(B)
+            emit('%s %s %s' % (w, nm, ty), f)
+        elif w == 'pow':
+            vals = list(A)
+            if A.typecode == 'z': return
+            e = rng.choice([0, 1, 2, 3])
+            if vals and (any(v == 0 for v in vals) or all(abs(v) in (0.5, 1, 2, 4) for v in vals)) and rng.random() < 0.6: e = rng.choice([-1, -2])
+            ev = float(e) if rng.random() < 0.5 else e
+            def f():
+                r = A ** ev
+                env[dst] = r; return show_mat(r)
+            emit('pow %s %s %d' % (dst, nm, e), f)
+        elif w == 'abs':
+            if A.typecode == 'z' and rng.random() < 0.7:
+                # moduli that are exact: axis-aligned entries and 3-4-5 triangles
+                tc, m, n, _ = g.mat('z')
+                vals = [rng.choice([0j, 2 + 0j, -3j, 3 + 4j, -4 + 3j, 1.5 - 2j, -1 + 0j]) for _ in range(m * n)]
+                def f0(): env[nm] = matrix(vals, (m, n), 'z'); return show_mat(env[nm])
+                emit('new %s z %d %d %s' % (nm, m, n, ','.join(num_tok(x) for x in vals) or '-'), f0)
+            def exact_modulus(v):
+                q = Fraction(v.real) ** 2 + Fraction(v.imag) ** 2
+                import math as _m
+                return _m.isqrt(q.numerator) ** 2 == q.numerator and _m.isqrt(q.denominator) ** 2 == q.denominator
+            if env[nm].typecode == 'z' and not all(exact_modulus(v) for v in env[nm]): return       # irrational modulus: outside the exact model
+            def f():
+                r = abs(env[nm]); env[dst] = r; return show_mat(r)
+            emit('abs %s %s' % (dst, nm), f)
+        elif w == 'len': emit('len ' + nm, lambda: str(len(A)))
+        elif w == 'bool': emit('bool ' + nm, lambda: str(bool(A)).lower())
+        elif w == 'list':
+            def f():
+                l = list(A); ty_ = {'i': int, 'd': float, 'z': complex}[A.typecode]
+                if any(type(v) is not ty_ for v in l): return 'EXC:element-type'
+                return 'list %s %s' % (A.typecode, ','.join(num_tok(v) for v in l) or '-')
+            emit('list ' + nm, f)
+        elif w in ('bmax', 'bmin', 'bsum'):
+            fn = {'bmax': builtins.max, 'bmin': builtins.min, 'bsum': builtins.sum}[w]
+            emit('%s %s' % (w, nm), lambda: show_res(fn(A), matrix))
+        elif w == 'in':
+            v = g.value(rng.choice('idz'))
+            emit('in %s %s' % (nm, num_tok(v)), lambda: str(v in A).lower())
+        elif w == 'elem':
+            op = rng.choice(['mul', 'div', 'max', 'min'])
+            x, tx = opd(); y, ty = opd()
+            if op == 'div':
+                # divisors with power-of-two magnitudes (and an occasional zero)
+                if rng.random() < 0.5: y, ty = scalar()
+                else:
+                    src = x if isinstance(x, matrix) and rng.random() < 0.8 else None
+                    m, n = src.size if src is not None else (rng.randint(0, 3), rng.randint(0, 3))
+                    tc = rng.choice('idz')
+                    pool = {'i': [1, 2, -1, 4, -2], 'd': [0.5, 2.0, -1.0, 4.0, -0.25], 'z': [1j, 1 + 1j, 2 + 0j, -1j, 1 - 1j]}[tc]
+                    vals = [rng.choice(pool) if rng.random() < 0.95 else type(pool[0])(0) for _ in range(m * n)]
+                    nm2 = rng.choice(names)
+                    def f0(): env[nm2] = matrix(vals, (m, n), tc); return show_mat(env[nm2])
+                    emit('new %s %s %d %d %s' % (nm2, tc, m, n, ','.join(num_tok(v) for v in vals) or '-'), f0)
+                    y, ty = env[nm2], 'M' + nm2
+                    if tx.startswith('M'): x = env[tx[1:]]
+            if tx.startswith('M'): x = env[tx[1:]]            # the name may have been rebound by the divisor created above
+            wrap = rng.random() < 0.5
+            def f():
+                if wrap: r = {'mul': cvxopt.mul, 'div': cvxopt.div, 'max': cvxopt.max, 'min': cvxopt.min}[op](x, y)
+                else: r = {'mul': base.emul, 'div': base.ediv, 'max': base.emax, 'min': base.emin}[op](x, y)
+                if isinstance(r, matrix):
+                    if r is x or r is y: raise RuntimeError('elementwise function returned an argument')
+                    env[dst] = r
+                return show_res(r, matrix)
+            emit('elem %s %s %s %s' % (op, dst, tx, ty), f)
+        elif w == 'newcols':
+            ncol = rng.randint(0, 3); ln = rng.randint(0, 3)
+            cols = [[g.value(rng.choice('iid' if rng.random() < 0.8 else 'idz')) for _ in range(ln if rng.random() < 0.9 else rng.randint(0, 3))] for _ in range(ncol)]
+            tc = rng.choice([None, None, 'i', 'd', 'z'])
+            def f():
+                r = matrix([list(c) for c in cols], tc=tc) if tc else matrix([list(c) for c in cols])
+                env[dst] = r; return show_mat(r)
+            emit('newcols %s %s %s' % (dst, tc or '_', '|'.join(','.join(typed(v) for v in c) or '-' for c in cols) or '_'), f)
     for _ in range(nops):
         k = rng.random()
+        if rng.random() < 0.3:
+            more_ops()
+            for q in list(env):
+                lines.append('dump ' + q); obs.append(show_mat(env[q]))
+            continue
         nm = rng.choice(list(env))
         A = env[nm]
         if k < 0.18:
@@ -214,6 +352,7 @@ def correspond(ctx):
     ops = 0
     for k, (l, o, m) in enumerate(zip(lines + sl_lines, obs + sl_obs, out)):
         if not l.startswith('dump'): ops += 1
+        if m == 'inexact': continue            # abs of a complex entry with an irrational modulus: outside the exact model
         if o != m:
             dis += 1
             if dis <= 5:
